@@ -250,6 +250,26 @@ def driveLim (d : LimD) (ws : List String) : LimD × String :=
         ({ d with st := s4 }, s!"{showBool (!who.isEmpty)} ; {spaceSep (who.map (fun r => s!"r{r}:{v}"))} ; {limDump s4}")
       | (s1, _) => ({ d with st := s1 }, s!"0 ; - ; {limDump s1}")
     | _, _ => (d, "bad-op")
+  | "put2" :: v1 :: v2 :: ds => match nat? v1, nat? v2, ds.mapM int? with
+    | some v1, some v2, some ds =>
+      if d.succs.isEmpty then (d, "bad-op") else
+      match limStep d.st (.begin true) with
+      | (s1, .admitted) =>
+        -- the second put is admitted or refused while the first one is in flight
+        let (s2, adm2) := match limStep s1 (.begin true) with
+          | (s, .admitted) => (s, true)
+          | (s, _) => (s, false)
+        let s3 := ds.foldl (fun s x => (limStep s (.dec x)).1) s2
+        let who1 := allAcc d.succs v1
+        let s4 := (limStep (limStep s3 (.verdict (!who1.isEmpty))).1 (if who1.isEmpty then .endFail else .endOk)).1
+        let who2 := if adm2 then allAcc d.succs v2 else []
+        let s5 := if adm2 then (limStep (limStep s4 (.verdict (!who2.isEmpty))).1 (if who2.isEmpty then .endFail else .endOk)).1 else s4
+        let dl := who1.map (fun r => s!"r{r}:{v1}") ++ who2.map (fun r => s!"r{r}:{v2}")
+        ({ d with st := s5 }, s!"{showBool (!who1.isEmpty)},{showBool (!who2.isEmpty)} ; {spaceSep dl} ; {limDump s5}")
+      | (s1, _) =>
+        -- the first put is refused at admission: nothing is offered, so the second put never starts
+        ({ d with st := s1 }, s!"0,0 ; - ; {limDump s1}")
+    | _, _, _ => (d, "bad-op")
   | _ => (d, "bad-op")
 
 /-! ### c15lq — queue_node → limiter_node → always-accepting sink (push/pull edge protocol as coded) -/
